@@ -23,7 +23,18 @@ def run(ctx):
         named = re.findall(r'python/name:([A-Za-z0-9_.]+)', t)
         for L in ('FullLoader', 'CFullLoader'):
             cases.append([t, L, named])
+    # histories: an UnsafeLoader / Loader / BaseLoader load of the SAME document earlier in the same interpreter must not change what the full loaders do
+    HARMLESS = ['!!python/object/apply:collections.OrderedDict [[[a, 1]]]', '!!python/object/new:tools.c17classes.PlainDict {}', '!!python/object:tools.c17classes.PlainDict {a: 1}',
+                '!!python/module:json', '!!python/object/apply:tools.c17classes.Slots [1, 2]', '- !!python/object/new:tools.c17classes.Slots {args: [1], state: !!python/tuple [null, {a: 1}]}',
+                '? !!python/object:tools.c17classes.PlainDict {a: 1}\n: v', '- &a !!python/object/apply:collections.OrderedDict []\n- *a', 'k: !!python/object/new:collections.OrderedDict []']
+    seqs = []
+    for t in HARMLESS:
+        for warm in ('UnsafeLoader', 'Loader', 'BaseLoader', 'CUnsafeLoader'):
+            for L in ('FullLoader', 'CFullLoader'):
+                seqs.append([t, L, [], warm])
+    ctx.rng.shuffle(cases)
     corr.direct(ctx, 'c04', cases, describe=lambda c: dict(text=c[0], loader=c[1]), label='confined')
+    corr.direct(ctx, 'c04', seqs, describe=lambda c: dict(text=c[0], loader=c[1], after_load_with=c[3]), label='history')
     ctx.partial = [dict(theorem='full_effects / full_value_universe', missing='the constructor model covers Safe/Base only; decided by the direct run under audit/profile hooks')]
     return ctx.finish(assumptions=['getattr on a module with a PEP 562 __getattr__ or a lazy-import proxy is outside what is observed', 'instantiation of C types is detected through the result universe, not through call events'])
 
